@@ -6,19 +6,45 @@ import os
 HERE = os.path.dirname(os.path.dirname(os.path.abspath(__file__)))
 
 # property -> (technique, level text, level note, design ref)
+TECH = "TLA+ bounded model (TLC exhaustive) + spec->code replay + TLC trace validation"
+NOTE = ("Exhaustive only within the model constants (small-scope hypothesis); float behaviour is "
+        "exercised through the concretisation family (identity/affine/int/float32/random maps, ulp "
+        "neighbours), not proved; trusts TLC, the Python driver's projection of results to "
+        "integers/small rationals, and NumPy's nextafter.")
 CHECKS = {
-    "C01": (
-        "TLA+ bounded model (TLC exhaustive) + spec->code replay + TLC trace validation",
+    "C01": (TECH,
         "TLC exhaustively checks the bounded Scores model (constructor in any argument order, "
         "is_sorted fast path, swap; binary-search technique = documented counting rule, totals, "
         "pointwise sum at every threshold position); every argument tuple TLC enumerated is then "
         "replayed into the real Scores/from_labels/swap/cm/rate/pointwise_cm code under several "
-        "float concretisations (on-score, one-ulp, +-inf thresholds) and the recorded trace is "
+        "float concretisations (on-score, one-ulp, +-inf thresholds), objects the library itself "
+        "produces (bootstrap samples in every mode) are adopted as well, and the recorded trace is "
         "validated by TLC against the trace specification, whose oracle is CountCM.",
-        "Exhaustive only within the model constants (small-scope hypothesis); float behaviour is "
-        "exercised through the concretisation family, not proved; trusts TLC and the Python driver's "
-        "projection of integer matrices.",
-        "DESIGN.md 5 (C01)"),
+        NOTE, "DESIGN.md 5 (C01)"),
+    "C02": (TECH,
+        "TLC checks the exact-rational model of threshold setting (Rescale . Normalise . Invert) "
+        "for round trip within one sample, coherence of lower/higher/linear, convexity and "
+        "monotonicity over every object x metric x method x target of the bounded model; the same "
+        "objects and target grids are replayed into the real code and TLC judges the recorded "
+        "thresholds together with the counts the same object reports at and around them.",
+        NOTE, "DESIGN.md 5 (C02)"),
+    "C03": (TECH,
+        "Same model and judge as C02 (invariant InvExtreme / clause C03.extreme for all three "
+        "methods) plus an independent trace over easy-sample counts up to 12, where the float "
+        "rescaling of the target depends on the exact (N, easy) pair.",
+        NOTE, "DESIGN.md 5 (C03)"),
+    "C08": (TECH,
+        "TLC checks swap / negate relations as action properties of the bounded model; the driver "
+        "probes every object, its swap(), its negated image and a second affine concretisation, "
+        "and TLC validates the relations between the RECORDED probes (matrices, rates, linear "
+        "thresholds, EER, AUC).",
+        NOTE, "DESIGN.md 5 (C08)"),
+    "C09": (TECH,
+        "TLC checks the Materialise relation (same matrices inside the materialised range, same "
+        "linear thresholds within the scored range) on the bounded model; every object is built "
+        "for real both with declared easy samples and with those samples materialised, and TLC "
+        "validates the relation between the recorded probes incl. full and partial AUC.",
+        NOTE, "DESIGN.md 5 (C09)"),
 }
 
 NOT_YET = "check not built yet in this round (see DESIGN.md section 5 for the planned TLA+ model)"
